@@ -171,6 +171,57 @@ class Sys:
             self.side.append(z3.And(v >= lo, v <= hi))
         return n
 
+    def propagate_semantic(self, honest, facts_list, solve, window=6, order=None):
+        """route B (DESIGN 3): in allocation order, ask the solver whether the earliest free wire v is forced to its honest
+        value by the constraints whose free wires lie in a small window starting at v; if so fix it and let the syntactic
+        rules run again.  Wires that are legitimately free (inverse hints of zero tests) simply stay free.
+        facts_list: fact sets to try in turn (e.g. linear facts, then all facts).  returns number of wires fixed."""
+        fixed_n = 0
+        keyorder = order or sorted(self.w, key=lambda k: (k[0] != "pub", k[1]))
+        progress = True
+        while progress:
+            progress = False
+            free = [k for k in keyorder if k not in self.fixed]
+            for idx, v in enumerate(free):
+                if v not in honest:
+                    continue
+                decided = False
+                for wsize in sorted({2, window, 2 * window}):
+                    W = set(free[idx:idx + wsize])
+                    sl = []
+                    touches = False
+                    for i, (A, B, C) in enumerate(self.cons):
+                        ks = {self.key_of(k) for part in (A, B, C) for k in part} - {None}
+                        fr = {k for k in ks if k not in self.fixed}
+                        if fr and fr <= W:
+                            sl.append(i)
+                            touches = touches or v in fr
+                    if not touches:
+                        continue
+                    enc = self.encode(only=set(sl))
+                    goal = (self.w[v] - honest[v]) % self.P != 0
+                    for facts in facts_list:
+                        st, _ = solve(facts + enc, goal)
+                        if st == "unsat":
+                            decided = True
+                            break
+                    if decided:
+                        break
+                if decided:
+                    self.fixed[v] = honest[v]
+                    self.w[v] = honest[v]
+                    self.bound.pop(v, None)
+                    fixed_n += 1 + self.propagate(honest, facts_list[-1], solve)
+                    progress = True
+                    break
+        self.side = []
+        for key, var in self.w.items():
+            if key in self.fixed:
+                continue
+            lo, hi = self.bound[key]
+            self.side.append(z3.And(var >= lo, var <= hi))
+        return fixed_n
+
     def is_boolwire(self, key):
         return key in self.bools
 
@@ -208,10 +259,16 @@ class Sys:
         v %= self.P
         return v - self.P if v > self.P // 2 else v
 
-    def encode(self, only=None):
+    def encode(self, only=None, skip_fixed=True):
+        """constraints whose wires are all fixed to honest values are implied by C01 (the honest witness satisfies the
+        system) and are left out: dropping constraints only enlarges the solution set, so unsat answers stay sound"""
         out = list(self.side)
+        self.skipped_fixed = 0
         for i, (A, B, C) in enumerate(self.cons):
             if only is not None and i not in only:
+                continue
+            if skip_fixed and all(self.key_of(k) is None or self.key_of(k) in self.fixed for part in (A, B, C) for k in part):
+                self.skipped_fixed += 1
                 continue
             out.append(self.encode_constraint(A, B, C))
         return out
@@ -233,4 +290,9 @@ class Sys:
                 key = self.key_of(k)
                 s += c * (1 if key is None else values[key])
             return s % P
-        return [i for i, (A, B, C) in enumerate(self.cons) if (evl(A) * evl(B) - evl(C)) % P != 0]
+        # constraints whose wires are all fixed hold by C01 on the honest values; the model may carry placeholder values
+        # for fixed wires whose hints the engine leaves open (field inverses), so they are not judged here -- the replay
+        # substitutes only the FREE wires into the real run and re-evaluates everything
+        return [i for i, (A, B, C) in enumerate(self.cons)
+                if any(self.key_of(k) is not None and self.key_of(k) not in self.fixed for part in (A, B, C) for k in part)
+                and (evl(A) * evl(B) - evl(C)) % P != 0]
